@@ -4,6 +4,7 @@ import MosnVerif.Model.StreamTableSpec
 import MosnVerif.Lemmas.DispatchCtx
 import MosnVerif.Model.DispatchCtxSpec
 import MosnVerif.Lemmas.BufReuse
+import MosnVerif.Lemmas.HpackOrder
 /-!
 # C02 — request/response correlation on an xprotocol client stream connection (property theorems only)
 
@@ -478,5 +479,75 @@ example : ((run partialClient [] [(exPost 0, 0), (exUp 1 false, 0)]).map (·.up)
     [some (["q0"], ["q0"]), some (["q1"], ["q0"])] := by decide
 
 end BufferReuse
+
+/-! ## HPACK encode / write atomicity on one HTTP/2 connection (Model/HpackOrder.lean)
+
+`Gen.H2WriteLock`: for `MServerConn.writeHeaders`, `MClientConn.WriteHeaders` and the trailers of
+`MClientStream.writeDataAndTrailer`, the lock / unlock / deferred unlock / HPACK-encode / frame-write actions in source
+order (HEADERS and CONTINUATION writes alike), regenerated on each run. -/
+section HpackWriteOrder
+open MosnVerif.Model.HpackOrder MosnVerif.Gen.H2WriteLock
+
+/-- in every regenerated function some mutex is held without interruption from before the first encode action until
+after the last frame write (CONTINUATIONs included): a call is ONE step of the connection -/
+theorem h2_write_lock_discipline : fns.all (fun f => atomicEncWrite f.acts) = true ∧
+    fns.all (fun f => units f.acts == [U.both]) = true := by decide
+
+/-- HPACK table discipline: whatever the table, a block decodes to the header list it was encoded from and leaves the
+decoder's table equal to the encoder's -/
+theorem hpack_block_sync (cap : Nat) (t : Model.HpackOrder.Table) (fs : List Field) :
+    decBlock cap t (encBlock cap t fs).2 = some ((encBlock cap t fs).1, fs) := dec_enc_block cap fs t
+
+/-- **hpack_wire_order**: for each of the regenerated functions, ANY number of concurrent writers (one header block
+each, any header lists, any table capacity) and EVERY interleaving: a peer decoding the blocks in wire order with one
+table reconstructs, block by block, exactly (stream, header list) as encoded — every decoded pair is the pair of one of
+the writers —, the tables agree, and no encoded block is left unwritten. -/
+theorem hpack_wire_order (f : Fn) (hf : f ∈ fns) (cap : Nat) (reqs : List (Nat × List Field)) (sched : List Nat) :
+    decAll cap [] ((Sys.start cap reqs (units f.acts)).run sched).wire =
+      some (((Sys.start cap reqs (units f.acts)).run sched).encT, ((Sys.start cap reqs (units f.acts)).run sched).sent) ∧
+    (∀ x ∈ ((Sys.start cap reqs (units f.acts)).run sched).sent, x ∈ reqs) ∧
+    ((Sys.start cap reqs (units f.acts)).run sched).pending = [] := by
+  have hu : units f.acts = [U.both] := by
+    have := (List.all_eq_true.mp h2_write_lock_discipline.2) f hf
+    simpa using this
+  rw [hu]
+  have hi := inv_run (inv_start cap reqs) sched
+  have hc := run_cap (Sys.start cap reqs [U.both]) sched
+  refine ⟨?_, ?_, hi.nopending⟩
+  · have h := dec_enc_all cap ((Sys.start cap reqs [U.both]).run sched).sent []
+    have hs := hi.sync
+    rw [hc.1] at hs
+    have hcap : (Sys.start cap reqs [U.both]).cap = cap := rfl
+    rw [hcap] at hs
+    rw [hs] at h
+    exact h
+  · intro x hx
+    have := hi.own x hx
+    rw [hc.2] at this
+    exact this
+
+/-! ### non-vacuity, and what the seeded change does -/
+def p0 : Field := ("x-p0", "v0")
+def p1 : Field := ("x-p1", "v1")
+def p2 : Field := ("x-p2", "v2")
+def wreqs : List (Nat × List Field) := [(1, [("x-u0", "r0"), p1]), (3, [p2, ("x-u1", "r1")]), (5, [p0, p1, p2])]
+-- writer 2 warms the table, then writers 0 and 1 in either order: the peer sees what was sent
+example : (decAll 8 [] ((Sys.start 8 wreqs (units serverWriteHeaders.acts)).run [2, 1, 0]).wire).map (·.2) =
+    some [(5, [p0, p1, p2]), (3, [p2, ("x-u1", "r1")]), (1, [("x-u0", "r0"), p1])] := by decide
+-- the mutex released between encoding and writing: two steps per call ...
+def leaky : List Act := [.lock "mu", .enc, .enc, .unlock "mu", .wr, .wr]
+example : atomicEncWrite leaky = false ∧ units leaky = [U.enc, U.wr] := by decide
+-- ... a lock taken again only around the write does not help either
+example : atomicEncWrite [.lock "mu", .enc, .unlock "mu", .lock "mu", .wr, .unlock "mu"] = false := by decide
+-- a trailing unlock after the last write is fine
+example : atomicEncWrite [.lock "mu", .enc, .wr, .wr, .unlock "mu"] = true := by decide
+-- writer 0 encodes, writer 1 encodes and writes, writer 0 writes: both streams SILENTLY get the other's pool value
+-- (x-p1 for x-p2 and vice versa): no decoding error, wrong header values
+example : (decAll 8 [] ((Sys.start 8 wreqs (units leaky)).run [2, 2, 0, 1, 1, 0]).wire).map (·.2) =
+    some [(5, [p0, p1, p2]), (3, [p1, ("x-u1", "r1")]), (1, [("x-u0", "r0"), p2])] := by decide
+-- without a warm table the lagging decoder fails outright
+example : decAll 8 [] ((Sys.start 8 [(1, [p0]), (3, [p0])] (units leaky)).run [0, 1, 1, 0]).wire = none := by decide
+
+end HpackWriteOrder
 
 end MosnVerif.Props.C02
